@@ -233,6 +233,29 @@ func programs() []program {
 			}
 		})
 	})
+	// write preconditions read the stored message (partly outside the lock) while other writers replace it
+	add("collection/Delete(expected check)||Update||Update", func() {
+		c := resource.NewCollection(resource.WithInitialRecord("a", tm(12)))
+		par(func() {
+			c.Delete("a", resource.WithExpectedCheck(func(m proto.Message) error {
+				touch(m)
+				return fmt.Errorf("refused")
+			}))
+		}, func() { c.Update("a", tm(10)) }, func() { c.Update("a", tm(4), resource.WithUpdatePaths("default_string")) })
+	})
+	add("collection/Delete(expected value)||Update; Update(expected value)||Update", func() {
+		c := resource.NewCollection(resource.WithInitialRecord("a", tm(12)))
+		par(func() { c.Delete("a", resource.WithExpectedValue(tm(3))) }, func() { c.Update("a", tm(10)) },
+			func() { c.Update("a", tm(4), resource.WithExpectedValue(tm(12))) })
+	})
+	add("value/Set(expected check, interceptors)||Set||Get", func() {
+		v := resource.NewValue(resource.WithInitialValue(tm(12)))
+		par(func() {
+			v.Set(tm(4), resource.WithExpectedCheck(func(m proto.Message) error { touch(m); return nil }),
+				resource.InterceptBefore(func(old, change proto.Message) { touch(old); touch(change) }),
+				resource.InterceptAfter(func(old, new proto.Message) { touch(old); touch(new) }))
+		}, func() { v.Set(tm(10)) }, func() { touch(v.Get()) })
+	})
 	add("collection/Pull+consume||Update||Upsert", func() {
 		c := resource.NewCollection(resource.WithInitialRecord("a", tm(12)))
 		ctx, cancel := context.WithCancel(bg)
